@@ -133,7 +133,15 @@ TempClauses(c) ==
    <<"temporal_adjacency:entries", Ret(c.tadj) => \A r \in Rng(c.tadj.mats) :
         MapOK(r, MapNodes(r)) => LET F(n, m) == TempAdj(S, r.t, n, m) IN SquareIs(r, r.map, F)>>}
 
+\* non-integer weights: the harness sends weights and entries multiplied by 4 (quarters), so that
+\* "the hyperedge's weight in the weighted incidence" is still decided exactly by TLC
+QuarterClauses(c) ==
+  LET S == DecState(c.st)
+      W(k) == S.E[k].w
+  IN Std("incidence_fractional_weights", c.winc, S.nodes, IncidenceIs(c.winc, Keys(S), W))
+
 C09Clauses(c) ==
+  IF c.kind = "hgq" THEN QuarterClauses(c) ELSE
   IF c.kind = "temp" THEN TempClauses(c)
   ELSE HgClauses(c) \cup OrderClauses(c) \cup LapAllClauses(c) \cup TensorClauses(c)
 R == INSTANCE CaseRunner WITH Clauses <- C09Clauses
